@@ -186,24 +186,51 @@ fn colliding_text(i: usize) -> String {
     v[i % v.len()].clone()
 }
 
-const ROUTES: &[(&str, &str)] = &[
-    ("literal", "\"abc\""),
-    ("escape", "\"\\x61b\\x63\""),
-    ("concat", "\"a\" + \"bc\""),
-    ("interpolation", "\"${\"ab\"}c\""),
-    ("interp_num", "\"a${\"b\"}${\"c\"}\""),
-    ("slice", "\"xabcx\"[1..4]"),
-    ("split", "\"abc,z\".split(\",\")[0]"),
-    ("replace", "\"abd\".replace(\"d\", \"c\")"),
-    ("from", "String.from(\"abc\")"),
-    ("from_utf8", "String.from_utf8([97, 98, 99])"),
-    ("from_code_points", "String.from_code_points([97, 98, 99])"),
-    ("from_ascii", "String.from_ascii([97, 98, 99])"),
-    ("iteration", "join(\"abc\")"),
-    ("index", "\"a\"[0] + \"b\"[0] + \"c\"[0]"),
+const ROUTE_NAMES: &[&str] = &[
+    "literal", "escape", "concat", "interpolation", "interp_two", "slice", "split", "replace", "from", "from_utf8", "from_code_points",
+    "from_ascii", "iteration", "slice_concat", "slice_of_longer", "split_piece",
 ];
 
-const NEAR_MISSES: &[&str] = &["\"abd\"", "\"ab\"", "\"abcc\"", "\"Abc\"", "\"abc \"", "\"\\x61b\\x64\"", "String.from_utf8([97, 98, 100])", "\"ab\" + \"C\""];
+/// the text of an expression that builds `t` (lower-case ASCII letters, no '#', ',') by route `r`;
+/// `k` shifts split points and the byte offset at which slices start inside their source string
+fn route_expr(r: &str, t: &str, k: usize) -> String {
+    let n = t.len();
+    let h = 1 + k % (n - 1).max(1);
+    let h = h.min(n - 1).max(1);
+    let pad: String = "qwertyu".chars().take(k % 8).collect();
+    let bytes_list = t.bytes().map(|b| b.to_string()).collect::<Vec<_>>().join(", ");
+    match r {
+        "literal" => format!("\"{}\"", t),
+        "escape" => format!("\"\\x{:02x}{}\"", t.as_bytes()[0], &t[1..]),
+        "concat" => format!("\"{}\" + \"{}\"", &t[..h], &t[h..]),
+        "interpolation" => format!("\"${{\"{}\"}}{}\"", &t[..h], &t[h..]),
+        "interp_two" => format!("\"{}${{\"{}\"}}${{\"{}\"}}\"", &t[..1], &t[1..h.max(1)], &t[h.max(1)..]),
+        "slice" => format!("\"{}{}x\"[{}..{}]", pad, t, pad.len(), pad.len() + n),
+        "split" => format!("\"{},z\".split(\",\")[0]", t),
+        "replace" => format!("\"#{}\".replace(\"#\", \"{}\")", &t[1..], &t[..1]),
+        "from" => format!("String.from(\"{}\")", t),
+        "from_utf8" => format!("String.from_utf8([{}])", bytes_list),
+        "from_code_points" => format!("String.from_code_points([{}])", bytes_list),
+        "from_ascii" => format!("String.from_ascii([{}])", bytes_list),
+        "iteration" => format!("join(\"{}\")", t),
+        "slice_concat" => format!("\"{}\"[0..{}] + \"{}\"[{}..{}]", t, h, t, h, n),
+        // a slice that starts at byte offset k inside a longer string, and a split piece that does
+        "slice_of_longer" => format!("(\"{}\" + \"{}\" + \"tail\")[{}..{}]", pad, t, pad.len(), pad.len() + n),
+        _ => format!("\"{},{},z\".split(\",\")[1]", pad, t),
+    }
+}
+
+fn near_miss(t: &str, which: usize) -> String {
+    let n = t.len();
+    match which % 6 {
+        0 => format!("\"{}d\"", &t[..n - 1].replace('d', "e")),
+        1 => format!("\"{}\"", &t[..n - 1]),
+        2 => format!("\"{}{}\"", t, &t[n - 1..]),
+        3 => format!("\"{}{}\"", t[..1].to_uppercase(), &t[1..]),
+        4 => format!("\"{} \"", t),
+        _ => format!("String.from_utf8([{}])", t.bytes().enumerate().map(|(i, b)| if i == n / 2 { (b ^ 1).to_string() } else { b.to_string() }).collect::<Vec<_>>().join(", ")),
+    }
+}
 
 /// language level: equal contents built by different routes, with string churn, used as map keys and
 /// as names across separately compiled snippets
@@ -211,9 +238,19 @@ fn run_language(bytes: &[u8]) -> Result<usize, (String, String)> {
     let mut rd = Rd::new(bytes, 1000);
     let mut s = Session::new(RunCfg { fuel: Some(30_000_000), modules: vec![("modx".into(), "var abc = \"module attr\";\nfn abcf() { return abc; }\n".into())], ..RunCfg::default() });
     let churn = 50 + rd.below(3000);
-    let r1 = ROUTES[rd.below(ROUTES.len())];
-    let r2 = ROUTES[rd.below(ROUTES.len())];
-    let miss = NEAR_MISSES[rd.below(NEAR_MISSES.len())];
+    // contents: short, or long enough for any word-at-a-time path of the hash function (>= 32 bytes),
+    // at lengths around multiples of 8
+    let len = *rd.pick(&[3usize, 3, 8, 15, 31, 32, 33, 39, 40, 47, 64, 100]);
+    let salt = rd.below(26);
+    let t: String = (0..len).map(|i| (b'a' + ((i * 7 + salt + i / 26) % 26) as u8) as char).collect();
+    let n1 = ROUTE_NAMES[rd.below(ROUTE_NAMES.len())];
+    let n2 = ROUTE_NAMES[rd.below(ROUTE_NAMES.len())];
+    let r1 = (n1, route_expr(n1, &t, rd.below(8)));
+    let r2 = (n2, route_expr(n2, &t, rd.below(8)));
+    let mut miss = near_miss(&t, rd.below(6));
+    if miss == format!("\"{}\"", t) {
+        miss = format!("\"{}~\"", t);
+    }
     let prelude = "fn join(s) { var r = \"\"; for c in s { r = r + c; } return r; }\nfn churn(n) { var keep = []; for i in 0..n { keep.push(\"s\" + String.from(i)); } return keep.len(); }\n";
     let snippets: Vec<(String, Vec<String>)> = vec![
         (prelude.to_string(), vec![]),
@@ -315,7 +352,7 @@ impl Property for C11 {
     }
 
     fn rule(&self) -> String {
-        "cases: (table_exhaustive) every history of up to 6 intern/lookup operations over 4 texts under 3 hash functions (all texts one hash; shared low bits; the real hash) — thorough enumerates all of them, quick those whose last two operations are the simplest; (table_random) histories of up to 3x each growth point (4..4096 slots) on the interpreter's own intern-table type driven through a hook with harness-chosen hash functions: identical full hashes, identical low k bits (long probe chains, wrap-around), real hashes with the low 12 bits cleared, real hashes; (api) 200-3200 calls of Vm::new_gc_obj_string over multi-byte texts, revisits, and texts found by search to collide in the low 12 bits of the real hash; (language) the same contents built by two of 14 routes (literal, escapes, +, interpolation, slice, split, replace, String.from, from_utf8, from_code_points, from_ascii, iteration, indexing) with 50-3000 strings of churn in between and a one-byte near miss, compared with ==, used as map keys alone and inside tuples, and names (global, method, field, module attribute) resolved across five separately compiled snippets on one interpreter. Oracle: intern-set model keyed by (hash, bytes): same key <=> same entry, new key <=> new distinct entry, every entry still found after every growth; pointer identity <=> byte equality at the API; outputs known by construction at language level. Non-trivial: the history crosses a growth with a collision chain of >=3 entries, or any api/language case; distinct by the case bytes.".into()
+        "cases: (table_exhaustive) every history of up to 6 intern/lookup operations over 4 texts under 3 hash functions (all texts one hash; shared low bits; the real hash) — thorough enumerates all of them, quick those whose last two operations are the simplest; (table_random) histories of up to 3x each growth point (4..4096 slots) on the interpreter's own intern-table type driven through a hook with harness-chosen hash functions: identical full hashes, identical low k bits (long probe chains, wrap-around), real hashes with the low 12 bits cleared, real hashes; (api) 200-3200 calls of Vm::new_gc_obj_string over multi-byte texts, revisits, and texts found by search to collide in the low 12 bits of the real hash; (language) the same contents (3-100 bytes, lengths around multiples of 8 and beyond 32) built by two of 16 routes (literal, escapes, +, interpolation, slices and split pieces that start at every byte offset 0-7 inside their source string, replace, String.from, from_utf8, from_code_points, from_ascii, iteration) with 50-3000 strings of churn in between and a one-byte near miss, compared with ==, used as map keys alone and inside tuples, and names (global, method, field, module attribute) resolved across five separately compiled snippets on one interpreter. Oracle: intern-set model keyed by (hash, bytes): same key <=> same entry, new key <=> new distinct entry, every entry still found after every growth; pointer identity <=> byte equality at the API; outputs known by construction at language level. Non-trivial: the history crosses a growth with a collision chain of >=3 entries, or any api/language case; distinct by the case bytes.".into()
     }
 
     fn render(&self, family: &str, bytes: &[u8]) -> String {
